@@ -934,6 +934,7 @@ static std::string run_op(const std::string& op, Toks& tk, ContentPtr& result) {
     int64_t nin = tk.i64();
     std::map<std::string, std::shared_ptr<ForthInputBuffer>> inputs;
     std::vector<std::string> innames;
+    std::vector<std::pair<std::shared_ptr<void>, std::string>> inbytes;   // live buffer, original bytes
     for (int64_t i = 0; i < nin; i++) {
       std::string name = tk.next();
       std::string hx = tk.next();
@@ -942,6 +943,7 @@ static std::string run_op(const std::string& op, Toks& tk, ContentPtr& result) {
       memcpy(ptr.get(), bytes.data(), bytes.size());
       inputs[name] = std::make_shared<ForthInputBuffer>(ptr, 0, (int64_t)bytes.size());
       innames.push_back(name);
+      inbytes.push_back(std::make_pair(ptr, bytes));
     }
     ForthMachine64 vm(source, stack_max, rec_max, out_initial, out_resize);
     util::ForthError err = util::ForthError::none;
@@ -982,7 +984,9 @@ static std::string run_op(const std::string& op, Toks& tk, ContentPtr& result) {
     out << "},{";
     first = true;
     for (auto& name : innames) { if (!first) out << ","; first = false; out << "'" << name << "':" << vm.input_position_at(name); }
-    out << "})";
+    bool untouched = true;
+    for (auto& pr : inbytes) if (memcmp(pr.first.get(), pr.second.data(), pr.second.size()) != 0) untouched = false;
+    out << "}," << (untouched ? "True" : "False") << ")";
     return out.str();
   }
   else if (op == "builder") {
